@@ -125,7 +125,14 @@ add("C09", "other",
     "symbolic int that must reach the callback by value; oracle: invocation log, class-before-method, MetaData tags on the args[0] chain, emitted rewrite.",
     "symbolic execution of the real code (CrossHair -> z3), per-partition 'confirmed over all paths'", "S", "DESIGN.md 3/C09", S_NOTE)
 
-NOT_YET = {"C03": "in progress: layout-enumerating translation validation (see DESIGN.md 3/C03)"}
+add("C03", "translation_validation",
+    "Translation validation over an ENUMERATED layout space (the layout quantifier cannot be symbolic: func_adl reads the source file through inspect/tokenize "
+    "before any Python-level logic runs): generated modules place lambdas in documented and undocumented layouts x enclosing contexts; parse_as_ast is wrapped in "
+    "the checking process; for every recorded call the expected lambda is first confirmed against the passed callable's bytecode, then z3 decides that the "
+    "recovered lambda and the passed one are behaviourally identical (or the library raised, which is allowed only for undocumented layouts).",
+    "SMT equivalence of recovered vs passed lambda (z3) over an enumerated layout grammar", "T", "DESIGN.md 3/C03", T_NOTE)
+
+NOT_YET = {}
 
 
 def main():
